@@ -73,7 +73,9 @@ func (v *Vue) Funcs(funcMap FuncMap) *Vue {
 // RenderNodes evaluates and renders HTML nodes with the given data.
 // This is the core rendering function used by all public render methods.
 func (v *Vue) RenderNodes(w io.Writer, nodes []*html.Node, data any) error {
-	dataMap := toMapData(data)
+	// The root scope is a copy: what a template assigns at its root belongs to
+	// this render, not to the caller's map.
+	dataMap := mergeFrontMatter(toMapData(data), nil)
 
 	ctx := NewVueContext("", &VueContextOptions{
 		Stack:      NewStackWithData(dataMap, data),
